@@ -12,7 +12,8 @@
 From Coq Require Import SpecFloat.
 From JsonSyntax Require Import Base.Prelude Base.Value Base.Float64 Spec.Multimap
   Spec.NumSpelling Spec.SerdeData Spec.SerdeRoundTrip Model.SerdeValue
-  Proofs.SerdeCollapse Proofs.SerdeValueProofs Proofs.SerdeWitnesses.
+  Proofs.SerdeCollapse Proofs.SerdeValueProofs Proofs.SerdeWitnesses
+  Base.ConstSyntax Generated.Consts Proofs.ConstsTie.
 
 (* serialising a duplicate-free value reproduces it exactly, "-0" becoming "0" *)
 Theorem C17_ser : forall fmt_lex v,
@@ -97,6 +98,16 @@ Example C17_printer_instance :
   fmt_lex_ref (S754_zero true) = s2l "-0".
 Proof. vm_compute. repeat split. Qed.
 
+
+(* ---- static tie of the constant tables (DESIGN.md section 4, "Translator tie for constant tables"):
+   `src_..` (Generated/Consts.v) is what lib/const_translate.py evaluates the named function / constant of
+   the Rust source to -- regenerated from the tree under check at the start of every `bin/check` of this
+   property --, the right-hand side is the same data computed from the model's own function
+   (Base/ConstSyntax.v: set_of = the maximal runs of domain points where a predicate holds) ---- *)
+Theorem C17_number_token_from_source :
+  src_number_token = SerdeData.number_token /\ src_number_token = SerdeTyped.num_token.
+Proof. exact ConstsTie.tie_number_token. Qed.
+
 Print Assumptions C17_ser.
 Print Assumptions C17_dups.
 Print Assumptions C17_insert_fold.
@@ -111,3 +122,4 @@ Print Assumptions C17_dups_instance.
 Print Assumptions C17_de_instance.
 Print Assumptions C17_de_text_instance.
 Print Assumptions C17_printer_instance.
+Print Assumptions C17_number_token_from_source.
